@@ -188,11 +188,6 @@ def log_keys(run, ctx, problems, witness):
         if fp[0] == "obj" or old[0][0] == "obj":
             continue
         mech_ = f"key_collision:{str(k[0] if isinstance(k, tuple) else k).split('-')[0]}"
-        try:
-            if old[0][0] == "nd" and fp[0] == "nd" and 0 in tuple(old[0][2]) and 0 in tuple(fp[2]):
-                mech_ = "key_collision:empty_blocks_of_other_shape"  # both values are empty arrays (recorded finding)
-        except Exception:
-            pass
         problems.append(("same_key_different_value", f"graph key {k!r} computed to two different values: {old[0][:3]} vs {fp[:3]}\n  first:  {old[2]}\n  second: {witness}", mech_))
         if len(problems) > 4:
             return
